@@ -160,7 +160,9 @@ Step(e) ==
                  THEN DropRequest(CHOOSE i \in UndelIdx(e.item[1], e.item[2]) : TRUE) /\ UNCHANGED mon
                  ELSE Flag({"C02", "C08"}, "request_lost_on_healthy_replier")
             ELSE IF ~e.cid_ok THEN Flag({"C02"}, "origin_tag_not_the_stream_key")
-            ELSE IF ~e.intact THEN Flag({"C02"}, "request_not_intact")
+            ELSE IF ~e.intact THEN Flag(IF "wire_ok" \in DOMAIN e THEN {"C02", "C08"} ELSE {"C02"},     \* (the byte stream was
+                                            IF "wire_ok" \in DOMAIN e THEN "replier_stream_corrupted_by_an_earlier_refused_frame"   \* damaged by another peer's frame)
+                                            ELSE "request_not_intact")
             ELSE IF SkippedNonDroppable(e.item[1], e.item[2])
             THEN Flag({"C02"}, "earlier_request_lost_while_replier_bound")
             ELSE HandRequest(e.id, e.item[1], e.item[2]) /\ UNCHANGED mon
@@ -176,7 +178,9 @@ Step(e) ==
             ELSE IF e.what # "rep" THEN Flag({"C02"}, "non_reply_frame_to_requestor")
             ELSE IF e.item[1] # e.id THEN Flag({"C02"}, "reply_delivered_to_wrong_requestor")
             ELSE IF ~e.tag_stripped THEN Flag({"C02"}, "routing_tag_not_stripped")
-            ELSE IF ~e.intact THEN Flag({"C02"}, "reply_not_intact")
+            ELSE IF ~e.intact THEN Flag(IF "wire_ok" \in DOMAIN e THEN {"C02", "C08"} ELSE {"C02"},
+                                            IF "wire_ok" \in DOMAIN e THEN "requestor_stream_corrupted_by_an_earlier_refused_frame"
+                                            ELSE "reply_not_intact")
             ELSE IF CanHandReply(e.id, e.item[2]) THEN HandReply(e.id, e.item[2]) /\ UNCHANGED mon
             ELSE Flag({"C02"}, IF \E i \in 1..Len(crecv[e.id]) : crecv[e.id][i] = <<e.id, e.item[2]>>
                                THEN "duplicate_reply" ELSE "reply_skipped_or_reordered")
